@@ -53,6 +53,16 @@ def check(ctx):
     warn(ctx, repo)
     no_direct_node_calls(ctx, s)
     aggregates_built_for_supplied_names(ctx, repo)
+    from ._wholecol import kernel_hygiene, whole_column_functions
+    from .c20 import group_suffix_test
+
+    group_suffix_test(ctx, repo.module("interface.py"), "F8")
+    ctx.rule("W10", "a whole-column function never stores into one of its argument arrays (a supplied column arrives as the caller's, possibly read-only, array)")
+    for mod_, fd_, kind_ in whole_column_functions(repo):
+        fs_ = [f for f in kernel_hygiene(mod_, fd_, kind_) if f[0] == "W10"]
+        ctx.ob("W10", ok=not fs_, distinct=(mod_.rel, fd_.name))
+        for rid_, key_, ln_, msg_ in fs_:
+            ctx.violation(rid_, f"{mod_.rel}:{fd_.name}|{key_}", f"src/_gettsim/{mod_.rel}:{ln_} {fd_.name}", msg_)
     from .c11 import return_annotation_sites
 
     ctx.rule("A3", "the declared type of a group / pointer aggregate - the type a supplied column of that name is converted to - comes from the result-type rule in every branch of _annotations_for_aggregation")
@@ -411,6 +421,13 @@ def aggregates_built_for_supplied_names(ctx, repo):
             n += 1
             bad = [t for t in conds for cmp_ in ast.walk(t) if isinstance(cmp_, ast.Compare) and isinstance(cmp_.left, ast.Name) and cmp_.left.id in keyvars
                    and any(isinstance(o, (ast.In, ast.NotIn)) for o in cmp_.ops) and any(isinstance(x, ast.Name) and x.id in dnames for x in ast.walk(cmp_.comparators[0]))]
+            # ... nor because a function of that name exists: an explicit (user) spec replaces the function
+            fnames = {p_ for p_ in params if "function" in p_}
+            bad_fn = [t for t in conds for cmp_ in ast.walk(t) if isinstance(cmp_, ast.Compare) and isinstance(cmp_.left, ast.Name) and cmp_.left.id in keyvars
+                      and any(isinstance(o, (ast.In, ast.NotIn)) for o in cmp_.ops) and any(isinstance(x, ast.Name) and x.id in fnames for x in ast.walk(cmp_.comparators[0]))]
+            for t in bad_fn:
+                ctx.ob("M-agg", ok=False, distinct=(facname, "functions"))
+                ctx.violation("M-agg", f"{facname}|{ast.unparse(t)[:60]}", fl.loc(t) + f" {facname}", f"`{ast.unparse(t)[:80]}` drops an explicit aggregation spec when a function of that name exists: a user spec meant to replace a built-in rule is silently ignored (documented precedence: automatic < built-in < user)")
             ctx.ob("M-agg", ok=not bad, distinct=facname)
             for t in bad:
                 ctx.violation("M-agg", f"{facname}|{ast.unparse(t)[:60]}", fl.loc(t) + f" {facname}", f"`{ast.unparse(t)[:80]}` skips the aggregate when a column of its name is supplied: the column is used without the overlap warning and without conversion to the aggregate's type")
